@@ -68,7 +68,10 @@ func (dl *dialLimiter) freeFDToken() {
 	log.Debug("[limiter] freeing FD token", "waiting", len(dl.waitingOnFd), "fd_consuming", dl.fdConsuming)
 	dl.fdConsuming--
 
-	for len(dl.waitingOnFd) > 0 {
+	// Skipping a cancelled job below releases its peer token, which can start another
+	// waiting job of that peer and hand the FD token freed above to it: only go on
+	// while a token is actually available.
+	for len(dl.waitingOnFd) > 0 && dl.fdConsuming < dl.fdLimit {
 		next := dl.waitingOnFd[0]
 		dl.waitingOnFd[0] = nil // clear out memory
 		dl.waitingOnFd = dl.waitingOnFd[1:]
